@@ -226,7 +226,7 @@ static Case gen_c16()
   // start from the valid encoding of a random 16-byte value, then mutate structurally
   bytes key = g::raw(16);
   std::string s = ref::b64_encode(key.data(), 16);
-  long m = g::range(0, 17);
+  long m = g::range(0, 20);
   auto rnd_alpha = [&]() { return ALPHA[g::range(0, 64)]; };
   switch (m)
   {
@@ -309,6 +309,22 @@ static Case gen_c16()
       s.insert((size_t)g::range(0, 23), 1, rnd_alpha());
     break;
   }
+  case 15:
+  case 16: // a valid key with something in front of it and / or behind it (blanks, line ends, quotes: what a key copied
+           // from the printed line or read from a file carries along); the 24-character rule admits none of it
+  {
+    static const unsigned char deco[] = {' ', ' ', ' ', '\t', '\n', '\r', '\v', '\f', '"', '\'', '=', 0xa0, 'A', '0', '/', '+'};
+    long where = g::range(0, 3); // 0 front, 1 back, 2 both
+    std::string pre, post;
+    if (where != 1)
+      for (long n = g::range(1, 6); n > 0; n--)
+        pre += (char)deco[g::coin(60) ? g::range(0, 8) : g::range(0, (long)sizeof deco)];
+    if (where != 0)
+      for (long n = g::range(1, 6); n > 0; n--)
+        post += (char)deco[g::coin(60) ? g::range(0, 8) : g::range(0, (long)sizeof deco)];
+    s = pre + s + post;
+    break;
+  }
   default: // several random edits
   {
     long n = g::range(1, 4);
@@ -387,6 +403,22 @@ static void fixed_c16(Ctx &ctx)
       c.setb("s", bytes(s.begin(), s.end()));
       eval_fixed(*p, ctx, c);
     }
+  // every single-character insertion (all 255 non-NUL byte values) at every position of a valid key, incl. in front
+  // of it and behind it; and 2..4 equal characters in front / behind
+  for (int pos = 0; pos <= 24; pos++)
+    for (int ch = 1; ch < 256; ch++)
+      for (int rep = 1; rep <= ((pos == 0 || pos == 24) ? 4 : 1); rep++)
+      {
+        if (!mine(ctx, i++))
+          continue;
+        std::string s = base;
+        s.insert((size_t)pos, (size_t)rep, (char)ch);
+        Case c;
+        c.set("kind", "key");
+        c.setb("s", bytes(s.begin(), s.end()));
+        eval_fixed(*p, ctx, c);
+      }
+  ctx.stats.info["exhaustive_single_char_insertions"] = "25 positions x 255 byte values on one valid key (1..4 copies in front / behind)";
   ctx.stats.info["exhaustive_single_char_substitutions"] = "24 positions x 255 byte values on one valid key";
 }
 
